@@ -11,10 +11,9 @@
 import ast
 import re
 
-from sa.interp import expand_bound, alpha, Interp, Scenario, Sym, Const, Bytes, Obj, Enum, render
+from sa.interp import expand_bound, Interp, Scenario, Sym, Const, Bytes, Obj, Enum, render
 from sa.loader import AnalysisError, dotted
-from sa.cfg import CFG, calls_in
-from sa import families, tables, keyaction
+from sa import families, keyaction
 
 noinline = lambda f: False  # noqa: E731
 
